@@ -553,6 +553,8 @@ class Interp:
             return self.ev(node)
         except AnalysisError as exc:
             if ("no declared domain" in str(exc) or "cannot index" in str(exc)) and not getattr(exc, "hard", False):
+                if self.strict and any(isinstance(n, ast.Call) and not U(n.func).startswith(self.LOG_PREFIXES) for n in ast.walk(node)):
+                    raise  # object-model evaluation: a call that could not be evaluated may have had an effect; never skip it silently
                 return Unknown(U(node))
             raise
 
